@@ -225,6 +225,30 @@ def run(chk):
     if forced_full < len(jobs) * 0.5:
         raise vlib.Infra("only %d of %d interleavings could be forced: hooks moved?" % (forced_full, len(jobs)))
 
+    # model assumption: what a query takes from the unrotated info (QPlan / QOpenGet / QFetchGet) is a snapshot - the
+    # spec's query steps read `segs` once and keep the value.  In the code that holds only if the tables handed out are
+    # copies; a live map shared with the flush path is an unsynchronised read/write (fatal "concurrent map read and map
+    # write" in Go).
+    d = vlib.scratch("c11snap")
+    dr = None
+    try:
+        dr = vlib.Driver(binary)
+        dr.ok("init", dir=d)
+        snap = dr.ok("unrot_snapshot", new_cols=3)
+    finally:
+        if dr is not None:
+            dr.quit()
+        vlib.rmtree(d)
+    chk.replayed(1)
+    chk.count(("snapshot-assumption",), nontrivial=True)
+    for name, b4, aft in zip(snap["names"], snap["before"], snap["after"]):
+        if b4 != aft:
+            chk.violation("C11:race:unrotated-table-shared:" + name,
+                          "the %s a query took from the unrotated info changed under it when a later flush added columns "
+                          "(%d -> %d entries): queries read the writer's live map without a lock (data race; Go aborts the process "
+                          "with 'concurrent map read and map write')" % (name, b4, aft), snap)
+    chk.cov["snapshot_assumption"] = snap
+
     import c11_stress
     c11_stress.run(chk, binary)
     chk.assumptions += [
